@@ -184,7 +184,8 @@ VARIANTS += [
     ("C09-year-366", "C09", DUR, "            days + years * 365 + months * 30,", "            days + years * 366 + months * 30,", "UNITS.new"),
     ("C09-slot-swap", "C09", DUR, "            milliseconds,\n            minutes,\n            hours,\n            weeks,\n        )\n\n        # Intuitive", "            milliseconds,\n            hours,\n            minutes,\n            weeks,\n        )\n\n        # Intuitive", "UNITS.new"),
     ("C09-total-month", "C09", DUR, "total = self.total_seconds() - (years * 365 + months * 30) * SECONDS_PER_DAY", "total = self.total_seconds() - (years * 365 + months * 31) * SECONDS_PER_DAY", "UNITS.new"),
-    ("C09-sign-le", "C09", DUR, "        if total < 0:\n            m = -1", "        if total <= 0:\n            m = -1", "DIVMOD.sign"),
+    ("C09-sign-le-benign", "C09", DUR, "        if total < 0:\n            m = -1", "        if total <= 0:\n            m = -1", None),   # at total == 0 every component is 0 whatever the sign: behaviour-preserving (found by the tabulated rule)
+    ("C09-sign-gt", "C09", DUR, "        if total < 0:\n            m = -1", "        if total > 0:\n            m = -1", "DIVMOD"),
     ("C09-seconds-nosign", "C09", DUR, "self._seconds = abs(int(total)) % SECONDS_PER_DAY * m", "self._seconds = abs(int(total)) % SECONDS_PER_DAY", "DIVMOD.pair"),
     ("C09-days-hour", "C09", DUR, "_days = abs(int(total)) // SECONDS_PER_DAY * m", "_days = abs(int(total)) // SECONDS_PER_HOUR * m", "DIVMOD.pair"),
     ("C09-weeks-mod", "C09", DUR, "self._weeks = abs(_days) // 7 * m", "self._weeks = abs(_days) // 7", "DIVMOD.pair"),
@@ -499,6 +500,10 @@ VARIANTS += [
     ("C16-first-of-raw-receiver", "C16", DT, "            getattr(self._day(), f\"_first_of_{unit}\")(day_of_week).start_of(\"day\"),", "            getattr(self, f\"_first_of_{unit}\")(day_of_week).start_of(\"day\"),", "DISPATCH.name"),
     ("C16-last-of-no-midnight", "C16", DT, "            getattr(self._day(), f\"_last_of_{unit}\")(day_of_week).start_of(\"day\"),", "            getattr(self._day(), f\"_last_of_{unit}\")(day_of_week),", "DISPATCH.midnight"),
     ("C16-day-keeps-fold", "C16", DT, "        return self.start_of(\"day\").replace(fold=1)", "        return self.start_of(\"day\")", "DISPATCH.name"),
+]
+VARIANTS += [
+    ("C08-iso8601-z-any-zone", "C08", DT, '        if self.tz and self.tz.name == "UTC":\n            string = string.replace("+00:00", "Z")', '        if self.tz:\n            string = string.replace("+00:00", "Z")', "NAMED.iso8601"),
+    ("C08-to-string-callable-inverted", "C08", DT, "        if callable(fmt_value):\n            return fmt_value(self)", "        if not callable(fmt_value):\n            return fmt_value(self)", "NAMED.dispatch"),
 ]
 BENIGN2 = [
     ("day-helper-inline", DT, ["C16"], [("            getattr(self._day(), f\"_first_of_{unit}\")(day_of_week).start_of(\"day\"),", "            getattr(self.start_of(\"day\").replace(fold=1), f\"_first_of_{unit}\")(day_of_week).start_of(\"day\"),")]),
